@@ -290,13 +290,7 @@ pub fn near_tied(r: &mut Rng) -> LinearModel {
         m.add_constraint(w, if max { Comparison::LessOrEqual } else { Comparison::GreaterOrEqual }, rhs);
     }
     m.set_objective(obj, if max { OptimizationType::Max } else { OptimizationType::Min });
-    let mut domain = indexmap::IndexMap::new();
-    for (name, t) in m.variables().iter().zip(types.iter()) {
-        domain.insert(name.clone(), rooc::model_transformer::DomainVariable::new(t.clone(), Default::default()));
-    }
-    let intended = LinearModel::new_from_parts(m.objective().clone(), m.optimization_type().clone(), m.objective_offset(),
-        m.constraints().clone(), m.variables().clone(), domain);
-    (intended, m)
+    m
 }
 
 /// A model whose `domain()` map is in a DIFFERENT order than `variables()` (what every Linearizer output looks like:
